@@ -55,9 +55,10 @@ def rotation_lemma_unit(res):
 def units(tier):
     from .c16 import partition_unit
     from pyvc.runner import Unit as U_
-    from .c03 import find_depending_unit
+    from .c03 import find_depending_unit, create_dg_unit
     from .c16 import postprocess_unit
     return [U_("C14/find_depending(dependence of a pair is a function of the instructions from producer to consumer)", find_depending_unit, "P", [(KDG, "KernelDG.find_depending")], decisive=False),
+            U_("C14/create_DG(edge weights are a function of producer, consumer and the kind of dependency - not of line numbers)", create_dg_unit, "P", [(KDG, "KernelDG.create_DG")], decisive=False),
             U_("C14/check_for_loopcarried_dep/post-processing(entries keyed by their sorted member list)", postprocess_unit, "P", [(KDG, "KernelDG.check_for_loopcarried_dep")], decisive=False),
             U_("C14/check_for_loopcarried_dep/partition(kernels >= 50 lines)", partition_unit, "P", [(KDG, "KernelDG.check_for_loopcarried_dep")], decisive=False),
             U_("C14/lemma/rotation-shifts-cycles(members, latency)", rotation_lemma_unit, "L", [], decisive=False),
